@@ -13,6 +13,11 @@ func init() {
 			c.Do("C07.b", "L3+L2 overwrite of an owning field", 3, func() { clStoreOwnership(c) })
 			c.Do("C07.c", "L2+L3 teardown order and free contexts", 15, func() { clFreeContexts(c); clFreeFeed(c) })
 			c.Do("C07.d", "L1 winner-only flush", 9, func() { clDeleteNodeWinner(c) })
+			c.Do("C07.f", "L1+L10 every terminated session reaches the destructor exactly once", 12, func() {
+				clTerminateOnce(c)
+				clTryLockRecheck(c)
+				clCleanupOrder(c)
+			})
 			c.Do("C07.e", "L1+L2 rejected operations free immediately", 8, func() { clRejectedFree(c) })
 		},
 	})
